@@ -438,3 +438,6 @@ def _abs_unit(fn, kind, units, nested=False):
 U_BY_ABSMASS = [_abs_unit("convert_by_absmass", "mass", [u, "g"]) for u in list(_MASS_U) + list(_VOL_U)] + \
                [_abs_unit("convert_by_absmass", "mass", ["mL", "uL", "kg"]), _abs_unit("convert_by_absmass", "mass", ["g", "mg"], nested=True)]
 U_BY_LAYER = [_abs_unit("convert_by_layer", "layer", [u, "nm"]) for u in _LEN_U] + [_abs_unit("convert_by_layer", "layer", ["nm", "um"], nested=True)]
+# a single part, and a counted group on its own ('(2g Co // 1g Ti)3'): the count multiplies the recorded total
+U_BY_ABSMASS += [_abs_unit("convert_by_absmass", "mass", ["mg"]), _abs_unit("convert_by_absmass", "mass", ["g"], nested=True)]
+U_BY_LAYER += [_abs_unit("convert_by_layer", "layer", ["um"]), _abs_unit("convert_by_layer", "layer", ["nm"], nested=True)]
